@@ -360,6 +360,16 @@ def check_case(case):
             return v
     # solvability
     if oa.kind != ob.kind:
+        if prune and {oa.kind, ob.kind} == {"ok", "nosol"}:
+            # K3 with the initial state as the sub-threshold state: one presentation still holds exactly 0 there when
+            # the sweeps stop ('no solution'), the other has received a positive figure below the solver's threshold
+            p0 = (oa if oa.kind == "ok" else ob).result[3][0]
+            if isinstance(p0, (int, float)) and 0 < p0 <= 1e-5:
+                v.fail("solvability-differs", f"original: {oa.brief()}; transformed ({t['which']}): {ob.brief()}; the "
+                                              f"solved presentation reports {p0!r} for the initial state (below the "
+                                              f"solver's threshold)", sig="zero-set-initial",
+                       known=K3 if K3 in known else None)
+                return v
         v.fail("solvability-differs", f"original: {oa.brief()}; transformed ({t['which']}): {ob.brief()}",
                sig=f"{oa.kind}->{ob.kind}")
         return v
